@@ -135,6 +135,20 @@ def check_corpus(corpus):
                         except Exception as e:
                             if got == exp:
                                 fail("C19-fuzzyterm-exception", "%s: %s" % (type(e).__name__, e), corpus)
+            # the word-list corrector over the same vocabulary: exactly the words within the distance (its automaton is the plain
+            # Levenshtein one, so the oracle here is `lev`), first and last word of the list included
+            from whoosh import spelling
+            for maxdist in (1, 2):
+                counts["cases"] += 1
+                try:
+                    lc = sorted(spelling.ListCorrector(vocab).suggest(text, limit=1000, maxdist=maxdist))
+                except Exception as e:
+                    fail("C19-listcorrector-exception", "ListCorrector(%r).suggest(%r, maxdist=%d): %s: %s" % (vocab, text, maxdist, type(e).__name__, e), corpus)
+                    continue
+                exp_l = sorted(w for w in vocab if lev(w, text) <= maxdist)
+                exp_o = sorted(w for w in vocab if osa(w, text) <= maxdist)
+                if lc != exp_l and lc != exp_o:
+                    fail("C19-listcorrector", "ListCorrector(%r).suggest(%r, maxdist=%d) = %r expected %r" % (vocab, text, maxdist, lc, exp_l), corpus)
             # suggestions: existing terms within distance, never the word itself, closest first then most frequent
             for maxdist in (1, 2):
                 counts["cases"] += 1
